@@ -58,6 +58,7 @@ type proc struct {
 	deletedJobs    map[string]bool // source ids of jobs deleted by maintenance
 	readded        int             // jobs added again for a source id whose job had been deleted
 	writeNotifies  int             // "notify notify.Write ..." lines (logged right before the watcher's Lstat)
+	createNotifies int             // "notify notify.Create ..." lines (start-up walk and new files)
 }
 
 var (
@@ -217,6 +218,8 @@ func (p *proc) line(b []byte) {
 		p.truncSeen++
 	case strings.HasPrefix(l.Message, "notify notify.Write "):
 		p.writeNotifies++
+	case strings.HasPrefix(l.Message, "notify notify.Create "):
+		p.createNotifies++
 	case strings.Contains(l.Message, "can't create fs watcher"):
 		p.noWatcher = true
 	case strings.HasPrefix(l.Message, "job ") && strings.HasSuffix(l.Message, " deleted"):
@@ -684,6 +687,17 @@ func runScenario(s *Scenario, bin string) *result {
 				time.Sleep(2 * time.Millisecond)
 			}
 			time.Sleep(5 * time.Millisecond)
+		case "WAITCREATE":
+			// wait until file.d has logged its first create notification (start-up walk; the Lstat follows at once)
+			dl := time.Now().Add(10 * time.Second)
+			for {
+				r.p.drain()
+				if r.p.createNotifies > 0 || !r.p.alive() || time.Now().After(dl) {
+					break
+				}
+				time.Sleep(2 * time.Millisecond)
+			}
+			time.Sleep(10 * time.Millisecond)
 		case "MARKNOTIFY":
 			r.p.drain()
 			for i := range s.Ops {
@@ -1001,8 +1015,8 @@ func (r *runner) afterDeath() {
 	if p.noWatcher {
 		res.EnvProblem = "run 1: can't create fs watcher"
 	}
-	if res.KilledBy == "self" || len(p.fatals) > 0 || (os.Getenv("C03_DEBUG") != "" && r.s.Kind == "stale") {
-		res.Run1LogTail = sanitize(p.logTail(60000), r.dir)
+	if res.KilledBy == "self" || len(p.fatals) > 0 {
+		res.Run1LogTail = sanitize(p.logTail(6000), r.dir)
 	}
 	res.D1 = r.readIDs()
 	if b, err := os.ReadFile(filepath.Join(r.dir, "offsets.yaml")); err == nil {
